@@ -498,9 +498,14 @@ def enc_views(vals, sc):
     return "(%s, %s, %s, %s)" % (val, run, oz(buff), kd)
 
 
-def payload_for(rng, meth):
+def payload_for(rng, meth, state=None):
     from simaple.simulate.event import DelayPayload
     if meth == "elapse":
+        # boundaries of every guard: a timer of the state itself (exactly, or a quarter tick off)
+        if state is not None and rng.random() < 0.35:
+            ts = [t for t in state_times(state) if 0 < t <= 300000]
+            if ts:
+                return max(0.0, float(rng.choice(ts)) + rng.choice([0.0, 0.0, 0.25, -0.25]))
         return H.rtime(rng, True, 60000)
     if meth == "pause":
         return DelayPayload(time=H.rtime(rng, False, 3000))
@@ -565,7 +570,7 @@ def generate(rng, quick):
         state = default_state(rng, comp, astat, rm) if rng.random() < 0.6 else random_state(rng, comp, astat, rm)
         for _ in range(walk_len):
             meth = rng.choice(reds + [m for m in ("elapse", "use") if m in reds])
-            payload = payload_for(rng, meth)
+            payload = payload_for(rng, meth, state)
             yield comp, meth, state, payload, origin
             try:
                 state, _ev = getattr(comp, meth)(payload, state)
